@@ -126,7 +126,7 @@ def run(idx: Index, rep: Report, tier: str) -> None:
     ok = bool(tests) and all(any(isinstance(s, ast.Return) and isinstance(s.value, ast.Constant) and s.value.value is None for s in t.owner.body) for t in tests)
     rep.check(ok, rule3, "no total order unless exactly one pending task has no pending predecessor", b.loc(tests[0].ast) if tests else b.loc(), construct="if len(firsts) != 1: return None", detail="" if ok else "a network with several admissible linearisations (or a cycle) is reported as totally ordered", function=b.qualname)
     wl = [w for w in walk_no_nested(b.node) if isinstance(w, ast.While)]
-    ok = bool(wl) and norm(wl[0].test) == "len(pending_tasks) > 0"
+    ok = bool(wl) and norm(wl[0].test) in ("len(pending_tasks) > 0", "len(pending_tasks) != 0", "len(pending_tasks) >= 1", "len(pending_tasks)", "pending_tasks", "0 < len(pending_tasks)", "not len(pending_tasks) == 0")
     rep.check(ok, rule3, "every task is placed", b.loc(wl[0]) if wl else b.loc(), construct=norm(wl[0].test) if wl else "", function=b.qualname)
     firsts = [a for a in walk_no_nested(b.node) if isinstance(a, ast.Assign) and norm(a.targets[0]) == "firsts"]
     ok = bool(firsts) and "all(" in norm(firsts[0].value) and "tgt != t" in norm(firsts[0].value) and "pending_precedences" in norm(firsts[0].value) and "pending_tasks" in norm(firsts[0].value)
